@@ -61,7 +61,7 @@ func main() {
 		// Phase sweep: one sender does Send (returns nil: the buffer has room) and then Close, while the
 		// receiver ENTERS Next at a swept offset around that moment - the windows between two
 		// adjacent statements of Next that random histories practically never hit.
-		r.Cases("sweep", r.Scale(36, 240), 1, func(c *vkit.Case) { sweep(c) })
+		r.Cases("sweep", r.Scale(108, 432), 1, func(c *vkit.Case) { sweep(c) })
 		r.Floor("phase-sweep trials", r.Table("sweep", "trials"), 40000)
 		// Crowd: many senders released together on a small buffer, some with dead contexts, while the
 		// receiver is idle and then closes: every Send must return.
